@@ -56,13 +56,23 @@ namespace xtl
 #endif
         std::memset(buffer, '\0', sizeof(buffer));
 #if defined(__linux__)
-        if (readlink("/proc/self/exe", buffer, sizeof(buffer)) != -1)
+        // readlink does not null-terminate and silently truncates: use the returned
+        // length and grow the buffer until the whole path fits
+        std::string link(sizeof(buffer), '\0');
+        for (;;)
         {
-            path = buffer;
-        }
-        else
-        {
-            // failed to determine run path
+            ssize_t len = readlink("/proc/self/exe", &link[0], link.size());
+            if (len == -1)
+            {
+                // failed to determine run path
+                break;
+            }
+            if (static_cast<std::size_t>(len) < link.size())
+            {
+                path.assign(link.data(), static_cast<std::size_t>(len));
+                break;
+            }
+            link.resize(link.size() * 2);
         }
 #elif defined (_WIN32)
     #if defined(UNICODE)
